@@ -24,6 +24,7 @@ import sympy as sp
 
 KNOWN_A = "rename_merges_kinvar_with_parameter"
 KNOWN_B = "rename_merges_two_kinvars"
+FALLBACKS: list = []  # comparisons decided by value because SymPy's two forms differ structurally
 
 
 def natkey(text: str):
@@ -126,7 +127,15 @@ def check_step(m, m2, pairs, rng, do_numeric=True):
     elif any(not any(v == w and type(v) is type(w) for w in pre[k]) for k, v in m2.parameter_defaults.items()):
         fails.append(("parameter_value_not_carried_over", "a parameter default is not the value of a preimage"))
     if m2.expression != xs(m.expression):
-        fails.append(("expression_not_xreplaced", "expression(renamed) != expression.xreplace(S)"))
+        # all five attributes were compared structurally above; `expression` is derived from them and
+        # may differ from expression.xreplace(S) in SymPy's evaluation order only (lib_C17.same_value)
+        verdict = L.same_value(m2.expression, xs(m.expression), random.Random(rng.randint(0, 10**9)))
+        if verdict is True:
+            FALLBACKS.append("expression")
+        else:
+            fails.append(("expression_not_xreplaced",
+                          "expression(renamed) != expression.xreplace(S)"
+                          + (" (values differ)" if verdict is False else " (no finite point to compare values)")))
     # --- orderings established by the attrs converters
     if [k.name for k in m2.kinematic_variables] != sorted((k.name for k in m2.kinematic_variables), key=natkey):
         fails.append(("kinematic_variables_unsorted", "kinematic variables not in natural sort order"))
@@ -257,7 +266,7 @@ def main():
             if not any(f["signature"] == sig for f in failures):
                 failures.append({"signature": sig, "what": f"{what} (model {name})", "case": case})
     print(json.dumps({"evaluations": evaluations, "distinct": len(distinct), "samples": samples, "kinds": kinds,
-                      "failures": failures}))
+                      "failures": failures, "value_fallbacks": len(FALLBACKS)}))
 
 
 if __name__ == "__main__":
